@@ -3,7 +3,7 @@
     stream `c18` : (c18 VARIANT HASSAMPLER (decisions B…) OUTSIDE P…)   VARIANT ::= concrete | boxdyn | arcdyn | assert | slot | setup
         (how the traceparent ctxt is held: plain, boxed / shared erased, AssertInternal-wrapped, or as the erased ctxt of an
          AmbientSlot runtime — the model is the same for all: wrappers are transparent, property C03)
-        P ::= event | (span P…) | (spant P…) | (spana P…) | (push (TRACE SPAN FLAGS) P…) | (carry P…)
+        P ::= event | (span P…) | (spant P…) | (spana P…) | (push (TRACE SPAN FLAGS) P…) | (carry P…) | (root P…)
             | (pushs TS P…) | (pushb (TRACE SPAN FLAGS) TS P…)      TS ::= N (0 = the empty tracestate; text "sN")
         TRACE, SPAN ::= none | N with N ≥ 1000000 (ids that arrive in headers; rng-drawn ids are the counter 1,2,3…)
     → the observation log, oldest first, then `calls=N cur=(T S F)`
@@ -35,6 +35,9 @@ partial def prog? : Sexp → Option Prog
   | .list (.atom "spant" :: cs) => (progs? cs).map Prog.spanThread
   | .list (.atom "spana" :: cs) => (progs? cs).map Prog.spanAsync
   | .list (.atom "carry" :: cs) => (progs? cs).map Prog.carry
+  -- `Frame::root(ctxt, Empty)` on the same thread: an inactive frame, like a carried one it leaves the traceparent
+  -- in force (`run (.carry cs) e` runs `cs` with `enterSt e.st none = e.st`, theorem C18.enterSt_self_none)
+  | .list (.atom "root" :: cs) => (progs? cs).map Prog.carry
   | .list (.atom "push" :: tp :: cs) => do
     let tp ← tp? tp
     let cs ← progs? cs
